@@ -106,8 +106,14 @@ const WORDS: &[&str] = &["a", "b", "lat", "reqs", "x_1", "Total", "http", "ns", 
 /// characters in leading / inner / trailing position.
 pub fn hostile_string(r: &mut Rng, nonempty: bool) -> String {
     let mut s = String::new();
-    match r.weighted(&[5, 5, 2, 3, 3]) {
+    match r.weighted(&[5, 5, 2, 3, 3, 1]) {
         0 => return wild_string(r, nonempty),
+        // a long string with hostile characters straddling a plausible limit (up to 4 KiB here: these strings also
+        // become metric names / label names / descriptions of whole sessions; the larger limits are in `long_inputs`)
+        5 => {
+            let limit = LIMITS[r.weighted(&[3, 3, 3, 3, 6, 6, 3, 3, 3, 6, 6, 1, 1, 1, 1])];
+            return boundary_string(r, limit);
+        }
         1 => {
             for _ in 0..r.range(1, 10) {
                 match r.below(3) {
@@ -152,6 +158,461 @@ pub fn hostile_string(r: &mut Rng, nonempty: bool) -> String {
         s.push_str(r.pick_str(WORDS));
     }
     s
+}
+
+// ---------------------------------------------------------------------------------------------
+// long inputs (added after seed C08-6: a cap applied to the escaped text cuts an escape pair in half — visible
+// only on a value whose escaped form crosses the cap with an escape pair on the boundary)
+
+/// byte lengths at which a cap, a buffer size or a length field could plausibly bite (`limit - 1` / `limit` pairs
+/// of the powers of two, and the decimal round numbers)
+pub const LIMITS: &[usize] = &[
+    63, 64, 127, 128, 255, 256, 511, 512, 1000, 1023, 1024, 2047, 2048, 4095, 4096, // ..15: also in `hostile_string`
+    8191, 8192, 10000, 16383, 16384, 32767, 32768, 65535, 65536, 100_000, 131_071, 131_072,
+];
+
+/// `n` bytes of filler: as many `f` as fit, the rest `z`
+fn fill(s: &mut String, f: char, n: usize) {
+    let k = n / f.len_utf8();
+    s.extend(std::iter::repeat(f).take(k));
+    s.extend(std::iter::repeat('z').take(n - k * f.len_utf8()));
+}
+
+/// A string in which a short hostile piece (escape-needing characters first of all) begins within a few bytes of
+/// byte offset `limit`, the offset counted in the raw string or in its escaped form (they differ when escapes
+/// precede the filler); filler of 1-, 2-, 3- or 4-byte characters.
+pub fn boundary_string(r: &mut Rng, limit: usize) -> String {
+    let special = ['\\', '"', '\n'];
+    let mut piece = String::new();
+    match r.below(5) {
+        0 => piece.push(*r.pick(&special)),
+        1 => {
+            piece.push(*r.pick(&special));
+            piece.push(*r.pick(&special));
+        }
+        2 => {
+            piece.push(*r.pick(&special));
+            piece.push(hostile_char(r));
+        }
+        3 => {
+            for _ in 0..r.range(2, 6) {
+                piece.push(*r.pick(&special));
+            }
+        }
+        _ => {
+            for _ in 0..r.range(1, 4) {
+                piece.push(hostile_char(r));
+            }
+        }
+    }
+    let lead = *r.pick(&[0usize, 0, 0, 1, 2, 3, 7]);
+    let f = *r.pick(&['a', 'a', 'a', 'a', 'x', 'é', '日', '🦀']);
+    let delta = r.range(0, 5) as isize - 4; // -4 ..= +1
+    let at = (limit as isize + delta).max(0) as usize;
+    // leading escapes: each is 1 raw byte and 2 escaped bytes
+    let before = if r.chance(1, 2) { lead } else { 2 * lead };
+    let mut s = String::with_capacity(at + 32);
+    for _ in 0..lead {
+        s.push(*r.pick(&['\n', '"']));
+    }
+    fill(&mut s, f, at.saturating_sub(before));
+    s.push_str(&piece);
+    match r.below(5) {
+        0 => {}
+        1 => s.push('b'),
+        2 => fill(&mut s, f, 9),
+        3 => {
+            s.push('b');
+            s.push(*r.pick(&special));
+        }
+        _ => {
+            // a second piece at the next limit up (a value that crosses two limits)
+            let l2 = 2 * (limit + 1);
+            let have = s.len();
+            if l2 > have + 2 && l2 <= 8200 {
+                fill(&mut s, f, l2 - have - 2);
+                s.push(*r.pick(&special));
+                s.push('c');
+            }
+        }
+    }
+    s
+}
+
+/// run-length description of a string, exact and short for the strings made here: `'a'×1023 '"' 'b'`
+pub fn rle(s: &str) -> String {
+    let mut o = String::new();
+    let mut it = s.chars().peekable();
+    let mut runs = 0;
+    while let Some(c) = it.next() {
+        let mut n = 1usize;
+        while it.peek() == Some(&c) {
+            it.next();
+            n += 1;
+        }
+        runs += 1;
+        if runs > 48 {
+            o.push_str(&format!(" … ({} bytes in all; full hex in the case's ops)", s.len()));
+            break;
+        }
+        if !o.is_empty() {
+            o.push(' ');
+        }
+        if n == 1 {
+            o.push_str(&format!("{:?}", c));
+        } else {
+            o.push_str(&format!("{:?}×{}", c, n));
+        }
+    }
+    if o.is_empty() {
+        o.push_str("(empty)");
+    }
+    o
+}
+
+/// head … tail of a long text (the tail is where a cut shows)
+pub fn clip(s: &str) -> String {
+    let cs: Vec<char> = s.chars().collect();
+    if cs.len() <= 420 {
+        return s.to_string();
+    }
+    format!(
+        "{} …[{} chars]… {}",
+        cs[..140].iter().collect::<String>(),
+        cs.len() - 380,
+        cs[cs.len() - 240..].iter().collect::<String>()
+    )
+}
+
+/// The character-wise escape written from the format description: LF ↦ `\n`, `\` ↦ `\\`, `"` ↦ `\"` (label values
+/// only). The exporter deliberately reads a backslash that is followed by `\`, `"` or LF as an escape the caller
+/// already wrote, so the reference applies (`Some`) only when every backslash is followed by an ordinary
+/// character or ends the string — which is the case for what `long_inputs` builds.
+fn reference_escape(s: &str, is_desc: bool) -> Option<String> {
+    let mut o = String::with_capacity(s.len() + 16);
+    let mut it = s.chars().peekable();
+    while let Some(c) = it.next() {
+        match c {
+            '\\' => {
+                if matches!(it.peek(), Some('\\') | Some('"') | Some('\n')) {
+                    return None;
+                }
+                o.push_str("\\\\");
+            }
+            '\n' => o.push_str("\\n"),
+            '"' if !is_desc => o.push_str("\\\""),
+            c => o.push(c),
+        }
+    }
+    Some(o)
+}
+
+/// Implementation-side oracles on the two escapers for one input of any length. Returns false if one fired.
+///  * the value stays inside its quotes / the docstring inside its line (strict reader);
+///  * nothing is cut off or blown up: `n ≤ chars(out) ≤ 2n` (Lean: `C08.escape_length`);
+///  * where the reference applies, the output IS the character-wise escape (Lean: `C08.escape_append`,
+///    `escape_boundary`, `escape_flatMap`).
+fn escape_oracles(out: &mut Out, s: &str) -> bool {
+    let a = escape_oracles_part(out, s, true);
+    let b = escape_oracles_part(out, s, false);
+    a && b
+}
+
+/// `wellformed`: only the reader oracle (the clause of the property proper); else the faithfulness oracles
+fn escape_oracles_part(out: &mut Out, s: &str, wellformed: bool) -> bool {
+    let mut ok = true;
+    let n = s.chars().count();
+    if !wellformed && n > 0 {
+        // the name sanitizers map character by character (Lean: `C08.name_length`), at any length
+        let (m, l) = (f::sanitize_metric_name(s), f::sanitize_label_key(s));
+        if m.chars().count() != n || l.chars().count() != n || !crate::expo::is_metric_name(&m) || !crate::expo::is_label_name(&l) {
+            ok = false;
+            out.oracle_fail(
+                "sanitize_metric_name / sanitize_label_key: long input: not one grammar character per input character",
+                &format!("input ({} chars) {} -> name {} chars, label name {} chars", n, rle(s), m.chars().count(), l.chars().count()),
+            );
+        }
+    }
+    for is_desc in [false, true] {
+        let (fname, v) = if is_desc { ("sanitize_description", f::sanitize_description(s)) } else { ("sanitize_label_value", f::sanitize_label_value(s)) };
+        let line = if is_desc { format!("# HELP m {}", v) } else { format!("m{{k=\"{}\"}} 1", v) };
+        let reads = match crate::expo::parse_line(&line) {
+            Ok(crate::expo::PLine::Sample { ref labels, .. }) if !is_desc => labels.len() == 1 && labels[0].1 == v,
+            Ok(crate::expo::PLine::Help { ref doc, .. }) if is_desc => *doc == v,
+            _ => false,
+        };
+        if wellformed && !reads {
+            ok = false;
+            let what = if is_desc { "sanitize_description: docstring leaves its line" } else { "sanitize_label_value: value escapes its quotes" };
+            out.oracle_fail(
+                what,
+                &format!("input ({} bytes) {} -> output ({} bytes) ends {:?} :: reader: {}", s.len(), rle(s), v.len(), tail_of(&v), clip(&format!("{:?}", crate::expo::parse_line(&line)))),
+            );
+        }
+        if wellformed {
+            continue;
+        }
+        let m = v.chars().count();
+        if m < n || m > 2 * n {
+            ok = false;
+            out.oracle_fail(
+                &format!("{}: output length outside [n, 2n] characters (something was cut off or added)", fname),
+                &format!("input ({} chars, {} bytes) {} -> {} chars, {} bytes, ends {:?}", n, s.len(), rle(s), m, v.len(), tail_of(&v)),
+            );
+        }
+        if let Some(want) = reference_escape(s, is_desc) {
+            if v != want {
+                ok = false;
+                let common = v.bytes().zip(want.bytes()).take_while(|(a, b)| a == b).count();
+                out.oracle_fail(
+                    &format!("{}: not the character-wise escape of the input", fname),
+                    &format!(
+                        "input ({} bytes) {} -> {} bytes, wanted {} bytes; first difference at byte {}; output ends {:?}, wanted {:?}",
+                        s.len(), rle(s), v.len(), want.len(), common, tail_of(&v), tail_of(&want)
+                    ),
+                );
+            }
+        }
+    }
+    ok
+}
+
+fn tail_of(s: &str) -> String {
+    let cs: Vec<char> = s.chars().collect();
+    cs[cs.len().saturating_sub(12)..].iter().collect()
+}
+
+fn limit_prom_text(unit_suffix: bool, globals: &[(String, String)], hist: bool) -> String {
+    format!(
+        "prom new {} {} {} . {}",
+        unit_suffix as u8,
+        pairs(globals),
+        if hist { "0+1024" } else { "~" },
+        list(["0", "0.5", "0.9", "0.95", "0.99", "0.999", "1"].iter().map(|q| hexs(q)))
+    )
+}
+
+/// One whole recorder session with long strings: global label value `gv`, own label value `lv`, description `d`
+/// on a counter, a gauge and a distribution; `render()` goes through the strict reader (every line, every
+/// family) and — the same ops — through the Lean recorder model.
+fn long_session(out: &mut Out, model: bool, hist: bool, gv: &str, lv: &str, d: &str) {
+    static META: metrics::Metadata<'static> = metrics::Metadata::new("mv", metrics::Level::INFO, None);
+    use metrics::Recorder;
+    let globals = vec![("zone".to_string(), gv.to_string())];
+    let mut b = metrics_exporter_prometheus::PrometheusBuilder::new().add_global_label("zone", gv);
+    if hist {
+        b = b.set_buckets(&[0.0, 1.0]).unwrap();
+    }
+    let rec = b.build_recorder();
+    let handle = rec.handle();
+    let op = |out: &mut Out, o: &str, a: &str| {
+        if model {
+            out.op(o, a);
+        }
+    };
+    op(out, &limit_prom_text(false, &globals, hist), "ok");
+    let labels = vec![("path".to_string(), lv.to_string())];
+    let mk = |name: &str| {
+        metrics::Key::from_parts(
+            name.to_string(),
+            labels.iter().map(|(k, v)| metrics::Label::new(k.clone(), v.clone())).collect::<Vec<_>>(),
+        )
+    };
+    rec.describe_counter(metrics::KeyName::from("c"), None, d.to_string().into());
+    op(out, &format!("prom describe {} ~ {}", hexs("c"), hexs(d)), "ok");
+    rec.register_counter(&mk("c"), &META).increment(3);
+    op(out, &format!("prom cinc {} {} 3", hexs("c"), pairs(&labels)), "ok");
+    rec.register_gauge(&mk("g"), &META).set(crate::prom::dy(512));
+    op(out, &format!("prom gset {} {} d512", hexs("g"), pairs(&labels)), "ok");
+    rec.register_histogram(&mk("h"), &META).record(crate::prom::dy(1024));
+    op(out, &format!("prom hrec {} {} 1024", hexs("h"), pairs(&labels)), "ok");
+    let text = handle.render();
+    op(out, "prom render", &crate::prom::canonical(&text));
+    out.nontrivial();
+    let inputs = format!("global label zone = {} ; own label path = {} ; description of c = {}", rle(gv), rle(lv), rle(d));
+    match crate::expo::check_exposition(&text) {
+        Ok(fams) => {
+            let nsamples: usize = fams.iter().map(|f| f.samples.len()).sum();
+            let want_samples = if hist { 2 + 5 } else { 2 + 9 };
+            if fams.len() != 3 || nsamples != want_samples {
+                out.oracle_fail(
+                    "render(): long strings: not the 3 families / all their samples",
+                    &format!("{} families, {} samples (wanted 3, {}) :: {}", fams.len(), nsamples, want_samples, inputs),
+                );
+            }
+            // every sample carries both labels with the character-wise escape of what was given
+            let (wg, wl) = (reference_escape(gv, false), reference_escape(lv, false));
+            for fam in &fams {
+                for (sn, ls, _) in &fam.samples {
+                    let got_g = ls.iter().find(|(k, _)| k == "zone").map(|(_, v)| v.clone());
+                    let got_l = ls.iter().find(|(k, _)| k == "path").map(|(_, v)| v.clone());
+                    let bad_g = got_g.is_none() || wg.as_ref().map_or(false, |w| got_g.as_ref() != Some(w));
+                    let bad_l = got_l.is_none() || wl.as_ref().map_or(false, |w| got_l.as_ref() != Some(w));
+                    if bad_g || bad_l {
+                        out.oracle_fail(
+                            "render(): a sample does not carry the escaped label value that was given",
+                            &format!(
+                                "sample {}: zone ends {:?} ({} bytes), path ends {:?} ({} bytes) :: {}",
+                                sn,
+                                got_g.as_deref().map(tail_of),
+                                got_g.as_deref().map_or(0, |v| v.len()),
+                                got_l.as_deref().map(tail_of),
+                                got_l.as_deref().map_or(0, |v| v.len()),
+                                inputs
+                            ),
+                        );
+                        return;
+                    }
+                }
+            }
+            if let Some(wd) = reference_escape(d, true) {
+                if !fams.iter().any(|f| f.name == "c" && f.help.as_deref() == Some(wd.as_str())) {
+                    out.oracle_fail("render(): HELP text is not the escaped description", &inputs);
+                }
+            }
+        }
+        Err(e) => out.oracle_fail("render(): not well-formed exposition text", &format!("{} :: {}", clip(&e), inputs)),
+    }
+}
+
+/// Long inputs, deterministic part (runs on every seed).
+///  1. oracles only, EVERY length `n` in `0 ..= nmax`: `n` filler bytes, then `\`, `"` or LF, then nothing / `b`
+///     (so every cap ≤ nmax applied to raw or escaped text is crossed with an escape pair on it), ASCII and
+///     2-/3-/4-byte filler;
+///  2. oracles only, around every entry of `LIMITS` (and up to 1 MiB in the thorough tier): offsets −3 … +2;
+///  3. model correspondence (all formatting functions + `key_to_parts` with own and global labels) at the limit
+///     pairs 255/256, 1023/1024, 4095/4096, 65535/65536, the escape pair before / on / after the limit in raw and
+///     in escaped bytes;
+///  4. whole recorder sessions (`render()`) with such values as global label, own label and description.
+fn long_inputs(cfg: &Cfg, out: &mut Out) {
+    let special = ['\\', '"', '\n'];
+    let mut fired;
+    // 1.
+    out.case("long: every length, escape pair at the end (oracles)");
+    let nmax = if cfg.thorough { 8400 } else { 1100 };
+    let mut nstr = 0u64;
+    // first pass: well-formedness of what is written (the property's clause); second pass: nothing cut off or altered
+    for wellformed in [true, false] {
+        fired = 0;
+        for n in 0..=nmax {
+            for (i, sp) in special.iter().enumerate() {
+                let f = if n % 7 == 3 { ['é', '日', '🦀'][i] } else { 'a' };
+                let mut s = String::with_capacity(n + 4);
+                fill(&mut s, f, n);
+                s.push(*sp);
+                if (n + i) % 2 == 0 {
+                    s.push('b');
+                }
+                nstr += 1;
+                if fired < 4 && !escape_oracles_part(out, &s, wellformed) {
+                    fired += 1;
+                }
+            }
+        }
+    }
+    nstr /= 2;
+    fired = 0;
+    // 2.
+    out.case("long: around every plausible limit (oracles)");
+    let mut limits: Vec<usize> = LIMITS.to_vec();
+    if cfg.thorough {
+        limits.extend_from_slice(&[262_143, 262_144, 1_048_575, 1_048_576]);
+    }
+    for &l in &limits {
+        for delta in -3isize..=2 {
+            let at = (l as isize + delta) as usize;
+            for (i, sp) in special.iter().enumerate() {
+                // raw offset `at`; and escaped offset `at` (5 escapes in front: 5 raw bytes, 10 escaped)
+                for lead in [0usize, 5] {
+                    let mut s = String::with_capacity(at + 16);
+                    for _ in 0..lead {
+                        s.push('\n');
+                    }
+                    let f = if (delta + 3) as usize % 3 == i && lead == 0 { ['é', '日', '🦀'][i] } else { 'a' };
+                    fill(&mut s, f, at.saturating_sub(2 * lead));
+                    s.push(*sp);
+                    if delta % 2 == 0 {
+                        s.push_str("tail");
+                    }
+                    nstr += 1;
+                    if fired < 12 && !escape_oracles(out, &s) {
+                        fired += 1;
+                    }
+                }
+            }
+        }
+    }
+    out.count_n("long.oracle_strings", nstr);
+    // 3.
+    let model_limits: &[usize] = &[255, 256, 1023, 1024, 4095, 4096, 65535, 65536];
+    for &l in model_limits {
+        out.case(&format!("long: limit {} through the model", l));
+        for (i, sp) in special.iter().enumerate() {
+            // the escape pair's first byte at l-1 (pair straddles the limit) and at l
+            for at in [l - 1, l] {
+                let mut s = String::with_capacity(at + 8);
+                let lead = if at == l { i } else { 0 };
+                for _ in 0..lead {
+                    s.push('"');
+                }
+                fill(&mut s, if l <= 4096 && i == 1 { 'é' } else { 'a' }, at - 2 * lead);
+                s.push(*sp);
+                if i != 0 {
+                    s.push('b');
+                }
+                out.count("long.model_strings");
+                out.op(&format!("c08 lval {}", hexs(&s)), &hexs(&f::sanitize_label_value(&s)));
+                out.op(&format!("c08 desc {}", hexs(&s)), &hexs(&f::sanitize_description(&s)));
+                if l <= 4096 || at == l - 1 {
+                    out.op(&format!("c08 name {}", hexs(&s)), &hexs(&f::sanitize_metric_name(&s)));
+                    out.op(&format!("c08 lkey {}", hexs(&s)), &hexs(&f::sanitize_label_key(&s)));
+                    let mut b = String::new();
+                    f::write_help_line(&mut b, "fam", &s);
+                    out.op(&format!("c08 help {} {}", hexs("fam"), hexs(&s)), &hexs(&b));
+                }
+                escape_oracles(out, &s);
+                // key_to_parts: the long value as own label, as global label, and as both (override)
+                if at == l - 1 {
+                    let klabels = vec![("path".to_string(), s.clone())];
+                    let globals = vec![("zone".to_string(), s.clone()), ("path".to_string(), "short".to_string())];
+                    let key = metrics::Key::from_parts("m", vec![metrics::Label::new("path", s.clone())]);
+                    let gl: indexmap::IndexMap<String, String> = globals.iter().cloned().collect();
+                    let (pn, pl) = f::key_to_parts(&key, Some(&gl));
+                    out.op(
+                        &format!("c08 parts {} {} {}", hexs("m"), pairs(&klabels), pairs(&globals)),
+                        &format!("{} {}", hexs(&pn), list(pl.iter().map(|x| hexs(x)))),
+                    );
+                    match crate::expo::parse_line(&format!("m{{{}}} 1", pl.join(","))) {
+                        Ok(crate::expo::PLine::Sample { ref labels, .. }) if labels.len() == 2 => {}
+                        other => out.oracle_fail(
+                            "key_to_parts: labels do not read back one by one",
+                            &format!("label value (own label path, global label zone) {} :: reader: {}", rle(&s), clip(&format!("{:?}", other))),
+                        ),
+                    }
+                }
+                out.nontrivial();
+            }
+        }
+    }
+    // 4. (the model's exposition reader is quadratic in the length of a label value: the recorder model takes part up to
+    // 4 KiB, beyond that the strict reader alone judges the text)
+    let session_limits: &[usize] = if cfg.thorough { &[255, 256, 1023, 1024, 4095, 4096, 16383, 16384, 65535, 65536] } else { &[256, 1024, 4096, 16384, 65536] };
+    for (j, &l) in session_limits.iter().enumerate() {
+        let sp = special[j % 3];
+        let mut long = String::new();
+        fill(&mut long, 'a', l - 1);
+        long.push(sp);
+        long.push('b');
+        let model = l <= 4096;
+        let tag = if model { "" } else { " (strict reader only)" };
+        out.case(&format!("long session: limit {} own label{}", l, tag));
+        long_session(out, model, j % 2 == 0, "eu", &long, "d");
+        out.case(&format!("long session: limit {} global label{}", l, tag));
+        long_session(out, model, j % 2 == 1, &long, "v", "d");
+        out.case(&format!("long session: limit {} description{}", l, tag));
+        long_session(out, model, j % 2 == 0, "eu", "v", &long);
+        out.count("long.sessions");
+    }
 }
 
 fn unescape(s: &str, is_desc: bool) -> Option<String> {
@@ -291,6 +752,7 @@ pub fn run(cfg: &Cfg, out: &mut Out) {
     // a long string: hostile characters beyond position 64 and at the very end
     let long: String = format!("{}\\\"\n²{}\\", "a".repeat(70), "b9".repeat(100));
     emit_fn_ops(out, &long);
+    long_inputs(cfg, out);
     sweep(cfg, out);
     let floats: Vec<String> = [
         f64::INFINITY, f64::NEG_INFINITY, f64::NAN, -0.0, f64::MAX, f64::MIN_POSITIVE, 5e-324, 0.1, 1e21, 1e-7, 0.005,
@@ -302,9 +764,16 @@ pub fn run(cfg: &Cfg, out: &mut Out) {
     for i in 0..cfg.cases {
         let mut r = root.fork(i as u64);
         out.case(&format!("seed={} i={}", cfg.seed, i));
-        let s = hostile_string(&mut r, false);
+        // the formatting functions are linear in the model as well: here the limits go up to 32 KiB (1 case in 12)
+        let s = if r.chance(1, 12) {
+            let l = LIMITS[r.below(22)];
+            out.count("str.boundary_string");
+            boundary_string(&mut r, l)
+        } else {
+            hostile_string(&mut r, false)
+        };
         out.count(&format!("strclass.{}", class_of(&s)));
-        out.count(&format!("strlen.{}", match s.chars().count() { 0 => "0", 1..=8 => "1-8", 9..=63 => "9-63", _ => "64+" }));
+        out.count(&format!("strlen.{}", match s.len() { 0 => "0", 1..=8 => "1-8", 9..=63 => "9-63", 64..=255 => "64-255", 256..=1023 => "256-1023", 1024..=4095 => "1024-4095", _ => "4096+" }));
         if s.chars().any(|c| !c.is_ascii() && c.is_numeric()) {
             out.count("strhas.nonascii_numeric");
         }
@@ -611,12 +1080,8 @@ fn emit_fn_ops(out: &mut Out, s: &str) {
     if !matches!(crate::expo::parse_line(b.strip_suffix('\n').unwrap_or("\n")), Ok(crate::expo::PLine::Help { .. })) {
         out.oracle_fail("write_help_line: not a HELP line", &b);
     }
-    // a label value must stay inside its quotes
-    let line = format!("m{{k=\"{}\"}} 1", f::sanitize_label_value(s));
-    match crate::expo::parse_line(&line) {
-        Ok(crate::expo::PLine::Sample { ref labels, .. }) if labels.len() == 1 => {}
-        other => out.oracle_fail("sanitize_label_value: value escapes its quotes", &format!("{:?} :: {:?}", other, line)),
-    }
+    // a label value must stay inside its quotes, a docstring inside its line; nothing is cut off; character-wise escape
+    escape_oracles(out, s);
     if !s.is_empty() {
         if !crate::expo::is_metric_name(&f::sanitize_metric_name(s)) {
             out.oracle_fail("sanitize_metric_name: not a metric name", s);
